@@ -819,6 +819,7 @@ func (prog *Prog) buildProg(as abi.As, arg *abi.X64Argument) (inst *Prog, err er
 		prog.To = dst
 
 	case ASTD: // std
+		assert(prog.nArg(arg) == 0)
 		prog.As = p9x86.ASTD
 
 	case ASUB: // sub
